@@ -1,0 +1,33 @@
+// Copyright (C) 2024, Ava Labs, Inc. All rights reserved.
+// See the file LICENSE for licensing terms.
+
+//go:build verif
+
+package dsmr
+
+import (
+	"github.com/ava-labs/avalanchego/utils/wrappers"
+
+	"github.com/ava-labs/hypersdk/codec"
+	"github.com/ava-labs/hypersdk/consts"
+	"github.com/ava-labs/hypersdk/utils"
+)
+
+// Verification hooks (add-only, build tag verif): what an external harness needs to drive
+// Node.Verify / BuildBlock / Accept with a real TimeValidityWindow.
+
+// EmapChunkCertificate names the container type of the DSMR validity window.
+type EmapChunkCertificate = emapChunkCertificate
+
+// NewBlockVerif assembles a block from an arbitrary header and certificate list and derives its
+// bytes and ID exactly as BuildBlock does.
+func NewBlockVerif(header BlockHeader, certs []*ChunkCertificate) (Block, error) {
+	blk := Block{BlockHeader: header, ChunkCerts: certs}
+	packer := wrappers.Packer{Bytes: make([]byte, 0, InitialChunkSize), MaxSize: consts.NetworkSizeLimit}
+	if err := codec.LinearCodec.MarshalInto(blk, &packer); err != nil {
+		return Block{}, err
+	}
+	blk.blkBytes = packer.Bytes
+	blk.blkID = utils.ToID(blk.blkBytes)
+	return blk, nil
+}
